@@ -91,7 +91,10 @@ def prepare(repo="/repo", tag="s", files=None):
                 continue
             s = s[:m.start()] + c["attrs"] + s[m.start():]
             open(p, "w").write(s)
-    shutil.copy(os.path.join(repo, "Cargo.lock"), os.path.join(dst, "Cargo.lock"))
+    lock = os.path.join(repo, "Cargo.lock")
+    if not os.path.exists(lock):
+        lock = "/repo/Cargo.lock"
+    shutil.copy(lock, os.path.join(dst, "Cargo.lock"))
     return dst, missing, lost
 
 
@@ -147,17 +150,26 @@ def parse_output(out, harnesses, rc, wall, cmd):
     compile_err = None
     if re.search(r"^error(\[E\d+\])?:", out, re.M) and "Checking harness" not in out:
         compile_err = "\n".join(l for l in out.splitlines() if l.startswith("error") or l.strip().startswith("-->"))[:2000]
-    # split per harness
-    parts = re.split(r"^Checking harness ", out, flags=re.M)
+    # split per harness.  Sequential runs print "Checking harness X..." followed by
+    # the result; parallel runs prefix each segment with "Thread N: ".
     blocks = {}
-    for part in parts[1:]:
-        name = part.split("...", 1)[0].strip()
-        short = name.split("::")[-1]
-        blocks[short] = part
-    # terse + -j prints a summary per harness in "Thread N: Checking harness"? handle both
-    for part in re.split(r"^Thread \d+: Checking harness ", out, flags=re.M)[1:]:
-        name = part.split("...", 1)[0].strip()
-        blocks.setdefault(name.split("::")[-1], part)
+    cur = {}
+    segs = re.split(r"^(?:Thread (\d+): )", out, flags=re.M)
+    if len(segs) > 1:
+        # segs = [pre, tid, text, tid, text, ...]
+        for i in range(1, len(segs) - 1, 2):
+            tid, text = segs[i], segs[i + 1]
+            m = re.match(r"Checking harness (\S+?)\.\.\.", text)
+            if m:
+                cur[tid] = m.group(1).split("::")[-1]
+                blocks[cur[tid]] = blocks.get(cur[tid], "") + text
+            elif tid in cur:
+                blocks[cur[tid]] = blocks.get(cur[tid], "") + text
+    else:
+        parts = re.split(r"^Checking harness ", out, flags=re.M)
+        for part in parts[1:]:
+            name = part.split("...", 1)[0].strip()
+            blocks[name.split("::")[-1]] = part
     for h in harnesses:
         r = {"harness": h, "status": None, "failed_checks": [], "covers": [], "time_s": None, "checks": None,
              "concrete": None, "cmd": cmd}
